@@ -147,6 +147,21 @@ def small_scope():
     return out
 
 
+def boundary_core():
+    """Tail-boundary files that are always run when the translator cannot read the tail rule (both tiers)."""
+    out = []
+    for B, s, ks in ((1026, 1, (0, 1)), (1500, 2, (0,)), (2048, 1, (1,))):
+        for k in ks:
+            for rest in (1023, 1024, 1025, 1026):
+                if rest >= B:
+                    continue
+                n = (k * B + rest) * s
+                out.append({"B": B, "s": s, "cols": ["id", "f1", "label"], "heuristic": "max-value-coverage", "target_only": "True",
+                            "seed": 9, "segments": [[n, 3, 0]], "entry": "task" if k else "direct", "trailing_newline": True,
+                            "crlf": False, "family": "tail-boundary"})
+    return out
+
+
 def load_corpus(pid):
     d = os.path.join(vlib.VERIF, "corpus", pid)
     out = []
@@ -393,21 +408,35 @@ def check(run, replay):
     vlib.standard_proof_phase(run, ["Props/C08.vo"], "Outrank.Props.C08", THEOREMS)
 
     # translator: the tail rule of the source against the property's / the model's constant
+    coq_tail = vlib.coq_eval("C08t", "From Outrank Require Import Pipeline.Stream.", ["tail_min"])[0]
+    if coq_tail != TAIL_MIN:
+        run.oblige("model constant tail_min = %d" % TAIL_MIN, False, "Pipeline/Stream.v has %r" % (coq_tail,))
+        run.violation("broken-obligation", "model:tail_min", found_input=False, extra="tail_min = %r" % (coq_tail,))
+    fallback = False
     try:
         info = translate_c08.extract(vlib.REPO)
-        coq_tail = vlib.coq_eval("C08t", "From Outrank Require Import Pipeline.Stream.", ["tail_min"])[0]
-        good = info["tail_min_used"] == TAIL_MIN + 1 and coq_tail == TAIL_MIN
+        good = info["tail_min_used"] == TAIL_MIN + 1
         run.oblige("translator:tail rule (`%s` at core_ranking.py:%d) = more than %d rows" % (
             info["tail_text"], info["tail_lineno"], TAIL_MIN), good,
             "" if good else "source processes a final partial batch from %d rows on; the property says from %d on" % (
                 info["tail_min_used"], TAIL_MIN + 1))
         run.cov["translated"] = info
+        run.cov["tail_constant_held_by"] = "translator (ast) and correspondence"
         if not good:
             run.violation("broken-obligation", "translator:tail-rule", found_input=False,
                           clause="a final partial batch is used only if it has more than 1024 rows", extra=info)
     except translate_c08.TranslateError as e:
-        run.oblige("translator:tail rule", False, str(e))
-        run.violation("broken-obligation", "translator:tail-rule", found_input=False, extra=str(e))
+        # The tail rule could not be located in the source (a rewrite the reader does not recognise).  That alone is
+        # not a violation: the model keeps the last accepted rule (strictly more than tail_min = 1024 rows) and the
+        # correspondence decides - the tail-boundary files (1023/1024/1025/1026 accepted rows left) are forced into the run.
+        fallback = True
+        msg = "tail constant held by correspondence only (translator could not locate it: %s)" % e
+        run.oblige("tail rule held by the correspondence (boundary files 1023/1024/1025/1026 always run); translator not applicable",
+                   True, msg)
+        run.notes.append(msg)
+        run.assumptions.append(msg)
+        run.cov["tail_constant_held_by"] = "correspondence only"
+        run.cov["translator_error"] = str(e)
 
     if replay is not None:
         cases = [replay["case"]]
@@ -417,6 +446,8 @@ def check(run, replay):
         fams = ["tail", "tail", "lines", "small", "random", "tail"]
         for i in range(n):
             cases.append(gen_case(run.rng, fams[i % len(fams)] if i < 18 else None))
+        if fallback:
+            cases.extend(boundary_core())
         if run.tier == "thorough":
             cases.extend(boundary_grid())
             cases.extend(small_scope())
